@@ -394,6 +394,8 @@ func interpretCode(ansiCode string, prevState *ansiState) ansiState {
 
 	state256 := 0
 	ptr := &state.fg
+	// Underline color (58) is not supported; its arguments are parsed and discarded
+	var underlineColor tui.Color
 
 	count := 0
 	for len(ansiCode) != 0 {
@@ -413,6 +415,9 @@ func interpretCode(ansiCode string, prevState *ansiState) ansiState {
 					state256++
 				case 48:
 					ptr = &state.bg
+					state256++
+				case 58:
+					ptr = &underlineColor
 					state256++
 				case 39:
 					state.fg = -1
